@@ -75,6 +75,26 @@ def stable_hash(obj):
     return int.from_bytes(hashlib.blake2b(obj, digest_size=8).digest(), "big")
 
 
+def _snap(x, depth=0):
+    """Byte-level snapshot of the data an argument carries (arrays, nested lists/tuples/dicts of them);
+    anything else (callables, estimators, landscapes, scalars) is not snapshotted."""
+    if isinstance(x, np.ndarray):
+        return ("nd", x.dtype.str, x.shape, x.tobytes() if x.dtype != object else repr(x.tolist()))
+    if isinstance(x, (list, tuple)) and depth < 4:
+        return (type(x).__name__, tuple(_snap(v, depth + 1) for v in x))
+    if isinstance(x, dict) and depth < 4:
+        return ("dict", tuple((repr(k), _snap(v, depth + 1)) for k, v in x.items()))
+    if isinstance(x, (int, float, str, bool)) or x is None:
+        return ("s", repr(x))
+    if hasattr(x, "tocsr") and hasattr(x, "nnz"):
+        try:
+            c = x.tocoo()
+            return ("sp", type(x).__name__, c.shape, c.row.tobytes(), c.col.tobytes(), c.data.tobytes())
+        except Exception:  # noqa: BLE001
+            return None
+    return None
+
+
 class Ctx:
     CASE_TIMEOUT_S = 60
     MAX_STORED_VIOLATIONS = 60
@@ -129,9 +149,19 @@ class Ctx:
         self.validated += n
 
     def call(self, fn, *a, **kw):
-        """Execute one real persim entry point (counts as one explorer transition)."""
+        """Execute one real persim entry point (counts as one explorer transition).  Array / list
+        arguments are snapshotted before and compared after the call (also when it raises): a public
+        call that writes into its arguments is reported by every check, at every call site."""
         self.transitions += 1
-        return fn(*a, **kw)
+        before = [_snap(x) for x in a] + [_snap(kw[k]) for k in sorted(kw)]
+        try:
+            return fn(*a, **kw)
+        finally:
+            after = [_snap(x) for x in a] + [_snap(kw[k]) for k in sorted(kw)]
+            if after != before:
+                pos = [i for i, (x, y) in enumerate(zip(before, after)) if x != y]
+                self.violation("argument-modified", "%s modified its argument(s) at position(s) %r in place" % (getattr(fn, "__name__", repr(fn)), pos),
+                               observed=[jsonable(x) for x in a], extra={"entry": getattr(fn, "__name__", repr(fn)), "positions": pos})
 
     def cap(self, what):
         if what not in self.caps:
